@@ -4,10 +4,12 @@
 package main
 
 import (
+	"encoding/binary"
 	"fmt"
+	"gitlab.com/yawning/obfs4.git/transports/obfs4"
 	"io"
-	"strings"
 	"math/big"
+	"strings"
 	"time"
 
 	"gitlab.com/yawning/obfs4.git/internal/zzverif/mc"
@@ -28,6 +30,10 @@ type probe struct {
 	build func(br *o4h.Bridge, r io.Reader) []byte
 	// pre: a handshake to be accepted first on another connection (replay probes)
 	replay bool
+	// busy: (replay probes) the bridge remembers 102399 other handshakes when
+	// the genuine one arrives, and accepts one more fresh handshake before the
+	// replay: the filter is full and evicts its oldest entry, not this one
+	busy bool
 	// validLen: for "extended" probes, the length of the embedded valid handshake
 	validLen int
 }
@@ -150,6 +156,7 @@ func probes(thorough bool) []probe {
 	// (an all-ones representative decodes to an ordinary public key: a
 	// handshake built around it with the right MAC is simply valid)
 	ps = append(ps, probe{name: "replay", replay: true})
+	ps = append(ps, probe{name: "replay/busy-bridge", replay: true, busy: true})
 	return ps
 }
 
@@ -215,7 +222,7 @@ func (t trace) String() string {
 
 // runProbe executes one probe against a fresh factory and returns the trace
 // the prober can observe.
-func runProbe(c *mc.Ctx, br *o4h.Bridge, sf base.ServerFactory, blob []byte, d delivery, pre []byte) trace {
+func runProbe(c *mc.Ctx, br *o4h.Bridge, sf base.ServerFactory, blob []byte, d delivery, pre []byte, pre2 []byte) trace {
 	var tr trace
 	tr.leftAt = -1
 	start := time.Unix(1_700_000_000, 0).Add(13 * time.Minute)
@@ -223,11 +230,24 @@ func runProbe(c *mc.Ctx, br *o4h.Bridge, sf base.ServerFactory, blob []byte, d d
 	var sentBeforeClose int64
 	res := sched.Run(c, sched.Options{NoPreempt: true, NoEarlyTimers: true, Start: start, MaxSteps: 3_000_000}, func() {
 		s := sched.Cur()
-		if pre != nil {
+		if pre2 != nil {
+			// busy bridge: 102399 other handshakes are being remembered
+			f := obfs4.VerifReplayFilter(sf)
+			var v [16]byte
+			for i := 0; i < 102400-1; i++ {
+				binary.BigEndian.PutUint64(v[:], uint64(i)+1)
+				f.TestAndSet(s.Now(), v[:])
+			}
+		}
+		for k, blobK := range [][]byte{pre, pre2} {
+			if blobK == nil {
+				continue
+			}
+			blobK := blobK
 			// a genuine client gets this handshake accepted first
-			cw2, sw2 := wire.Pipe("client0", "server0")
-			s.Spawn("client0", func() {
-				cw2.Write(pre)
+			cw2, sw2 := wire.Pipe(fmt.Sprintf("client%d", k), fmt.Sprintf("server%d", k))
+			s.Spawn(fmt.Sprintf("client%d", k), func() {
+				cw2.Write(blobK)
 				buf := make([]byte, 9000)
 				cw2.Read(buf)
 				cw2.Close()
@@ -238,6 +258,8 @@ func runProbe(c *mc.Ctx, br *o4h.Bridge, sf base.ServerFactory, blob []byte, d d
 				return
 			}
 			conn.Close()
+		}
+		if pre != nil {
 			// the replay arrives a second later; "accept" is now
 			s.Advance(time.Second)
 			start = s.Now()
@@ -330,13 +352,16 @@ func main() {
 								fail(c, "setup", "setup", "%v", err)
 								return
 							}
-							var blob, pre []byte
+							var blob, pre, pre2 []byte
 							var tr trace
 							// the probe bytes are built inside a scheduler run (they need the model hour)
 							sched.Run(c, sched.Options{NoPreempt: true, Start: time.Unix(1_700_000_000, 0).Add(13 * time.Minute)}, func() {
 								if p.replay {
 									blob = validHello(br, pr, 85, 0)
 									pre = blob
+									if p.busy {
+										pre2 = validHello(br, pr, 90, 0)
+									}
 								} else {
 									blob = p.build(br, pr)
 								}
@@ -358,7 +383,7 @@ func main() {
 									continue
 								}
 							}
-							tr = runProbe(c, br, sf, blob, d, pre)
+							tr = runProbe(c, br, sf, blob, d, pre, pre2)
 							c.Count("probes", 1)
 							c.AddExecutions(1)
 							if tr.panics != "" {
